@@ -63,8 +63,12 @@ def gen_tree(rng, depth, base=None):
     return {"files": files, "subs": subs}
 
 
-def materialize(tree, d, rng):
+def materialize(tree, d, rng, store=None):
+    """`store`: a directory outside every search path; some sub-directories are created there and linked
+    into the tree (the walk follows symlinked directories like real ones, with the same pruning)"""
     os.makedirs(d, exist_ok=True)
+    if store is None:
+        store = [d.rstrip("/") + "_store", 0]
     items = [("f", f) for f in tree["files"]] + [("d", s) for s in tree["subs"]]
     rng.shuffle(items)
     for kind, it in items:
@@ -72,8 +76,13 @@ def materialize(tree, d, rng):
             with open(os.path.join(d, it), "w") as fh:
                 # parent packages are imported implicitly by Python: only test modules record their import
                 fh.write(MODULE_SRC if it.endswith(".py") and it != "__init__.py" else ("" if it == "__init__.py" else "x"))
+        elif rng.random() < 0.2:
+            store[1] += 1
+            target = os.path.join(store[0], "t%d" % store[1])
+            materialize(it[1], target, rng, store)
+            os.symlink(target, os.path.join(d, it[0]))
         else:
-            materialize(it[1], os.path.join(d, it[0]), rng)
+            materialize(it[1], os.path.join(d, it[0]), rng, store)
 
 
 def jtree(tree):
@@ -235,6 +244,7 @@ def run(ctx, n=None, module_gate_only=False):
                       failed_imports if imported is not None else None))
         queries.append(q)
         shutil.rmtree(d, ignore_errors=True)
+        shutil.rmtree(d.rstrip("/") + "_store", ignore_errors=True)
     # first pass: files and module names; second pass: the import gate with the accepted module list
     first = ctx.driver.batch(queries)
     for q, ans, info in zip(queries, first, infos):
